@@ -3,6 +3,7 @@ import CifModel.Model.Ladder
 import CifModel.Model.LadderMap
 import CifModel.Model.LadderTree
 import CifModel.Model.LadderIter
+import CifModel.Model.LadderHeader
 /-
   family `ladder` (C17): allocation/free pattern of three library functions under one failed allocation.
     ladder dup <n> <k>                      dup_ustrings on n strings, k-th allocation fails (0 = none)
@@ -27,6 +28,7 @@ import CifModel.Model.LadderIter
     ladder getpackets <n> <name-hex>*n <k>  cif_loop_get_packets on a stored loop with the n (normalised) item names and one packet
     ladder nextpacket <keep 0|1> <n> (<name-hex> <vshape…>)*n <k>   cif_pktitr_next_packet: the loop's only packet has the given
                                             values; keep = 1: handed to the caller (*packet == NULL), 0: dropped (packet == NULL)
+    ladder loophdr <n> <k>                  parse_loop (syntax-only) on a header of n distinct names and a refused repetition of the first
     ladder names <n> <k>                    cif_loop_get_names on a stored loop with n item names (the code as it is:
                                             getNamesPinned)
   shape tokens: S (unknown/na) | C (char) | M0 | M1 (number without / with su) | [ shape* ]
@@ -251,6 +253,11 @@ def handle : Handler
           let (rc, _, st) := deserV k b
           pure (summary rc st.evs ++ s!" code={rc}")
       | _ => none
+  | ["loophdr", n, k] => do
+      let n ← n.toNat?; let k ← k.toNat?
+      if n = 0 then none
+      let (rc, st) := loopHeaderAbort k n
+      pure (summary rc st.evs)
   | "getpackets" :: nT :: rest => do
       let n ← nT.toNat?
       if rest.length ≠ n + 1 then none
